@@ -485,7 +485,9 @@ where
 
         for (label, (point_label, point)) in query_set.iter() {
             let labels = query_to_labels_map
-                .entry(point_label)
+                // keyed by the label AND the point: a label used for two points opens two groups
+                // instead of dropping the queries (and the claimed evaluations) at the second point
+                .entry((point_label, point))
                 .or_insert((point, BTreeSet::new()));
             labels.1.insert(label);
         }
